@@ -392,7 +392,7 @@ def c02_6(ctx):
     # no-key branch
     ifs = [n for n in fn.body if isinstance(n, ast.If) and N(n.test) in ('len(cols)', NS('len(cols) > 0'), NS('len(cols) != 0'))]
     ctx.need(len(ifs) == 1, 'the `if len(cols)` split of join not found')
-    els = ifs[0].orelse
+    els = else_of(ifs[0])
     ctx.count(1, fn.where(ifs[0]))
     txt = ' ; '.join(N(s.value) + '->' + U(s.targets[0]) for s in els if isinstance(s, ast.Assign))
     if 'range(len(self))' not in txt or 'range(len(other))' not in txt:
@@ -691,7 +691,7 @@ def c02_12(ctx):
     else:
         t = N(fin[-1].test)
         left_first = t in (NS('mode == 0'), NS('mode != 1'))
-        a, b = (fin[-1].body, fin[-1].orelse) if left_first else (fin[-1].orelse, fin[-1].body)
+        a, b = (fin[-1].body, else_of(fin[-1])) if left_first else (else_of(fin[-1]), fin[-1].body)
         ra = [r for r in ast.walk(ast.Module(a, [])) if isinstance(r, ast.Return)]
         rb = [r for r in ast.walk(ast.Module(b, [])) if isinstance(r, ast.Return)]
         if not ra or not U(ra[0].value).startswith('self[') or not rb or not U(rb[0].value).startswith('other['):
